@@ -20,7 +20,7 @@ prop('C01', ['K1', 'M1', 'M2', 'M3', 'M7', 'T4', 'DC1', 'DC4', 'M8', 'U1', 'CL1'
      ['identity of leaf objects at every position', 'equality of the re-flattened treespec',
       'any n replacement leaves round-trip'])
 
-prop('C02', ['K5', 'K6', 'NS1', 'K2', 'D2', 'T2', 'M7', 'K4', 'T1', 'T1e', 'T3', 'T3b', 'L6', 'G9', 'T10'],
+prop('C02', ['AL1', 'K5', 'K6', 'NS1', 'K2', 'D2', 'T2', 'M7', 'K4', 'T1', 'T1e', 'T3', 'T3b', 'L6', 'G9', 'T10'],
      'Leaf order and classification, structural part: the user predicate is consulted before the '
      'registry and a true answer never reaches it (K5, on the CFG of all 5 classification sites); '
      'lookup order namespace map -> global map -> struct sequence -> namedtuple with the exact '
@@ -35,7 +35,7 @@ prop('C02', ['K5', 'K6', 'NS1', 'K2', 'D2', 'T2', 'M7', 'K4', 'T1', 'T1e', 'T3',
      'The lookup keeps no memo of its answers: no scratch state in function-local statics on the lookup path (L6), no write to a registry member by Lookup / GetKind and no stale Python-side memo (G9).',
      ['equal dicts flatten equally for all inputs', 'None-removal law', 'predicate idempotence'])
 
-prop('C03', ['K1', 'K3', 'K4', 'K5', 'K7', 'K8', 'M7', 'F1', 'F14', 'F7', 'F10', 'T4', 'T2', 'NS1', 'D2', 'N1', 'N2', 'M1', 'K2', 'D5', 'L6', 'B1'],
+prop('C03', ['K1', 'K3', 'K4', 'K5', 'K7', 'K8', 'M7', 'F1', 'F14', 'F7', 'F10', 'T4', 'T2', 'NS1', 'D2', 'N1', 'N2', 'M1', 'K2', 'D5', 'L6', 'B1', 'AL1', 'VG1'],
      'Sibling traversals agree, decided on the 5 x 11 arm matrix: per kind the same accessor on '
      'the same container class, the same key pipeline, the same arity source (K3); the same '
      'effective visiting order (K4), where a traversal that asks the shared key sort for another order gets it after every stage of the sort (T2) and every traversal hands its options down its own recursion unchanged (NS1) and every public entry point has the same option defaults (F14); the flatten variants read the dict-order mode the same way and record the namespace in the treespec under the same condition (D2); predicate first everywhere (K5); the same validations of a '
@@ -46,7 +46,7 @@ prop('C03', ['K1', 'K3', 'K4', 'K5', 'K7', 'K8', 'M7', 'F1', 'F14', 'F7', 'F10',
      'The paths / accessors handed out by the flatten variants and those recomputed from the treespec come from producers that use the same entry per kind (N1, N2); every producer of nodes stores the same metadata shape (M1); the NoneIsLeaf / sort-mode variant taken equals the flag (K2).',
      ['equality of the produced lists for every input'])
 
-prop('C04', ['T5', 'N1', 'N2', 'N3', 'N4', 'N5', 'N6', 'F8', 'M4', 'K4'],
+prop('C04', ['T5', 'N1', 'N2', 'N3', 'N4', 'N5', 'N6', 'F8', 'M4', 'K4', 'VG1'],
      'Paths and accessors, structural part: the path entry class per kind agrees between the '
      'engine, the Python registry literal and accessor.py (T5); flatten-with-path, PathsImpl, '
      'AccessorsImpl, Entries and Entry use the same entry per kind (index / key from the list that '
@@ -137,7 +137,7 @@ prop('C11', ['S1', 'S2', 'S3', 'K2', 'NS1'],
      'The loader looks custom types up in the recorded namespace (NS1).',
      ['cross-process behaviour', 'protocols', 'post-load equality'])
 
-prop('C12', ['G7', 'G1', 'G2', 'G3', 'G4', 'G8', 'G5', 'G6', 'L4', 'K6', 'K6py', 'NS1', 'D4', 'D5', 'I5', 'B1', 'G9', 'L6', 'CL1'],
+prop('C12', ['G7', 'G1', 'G2', 'G3', 'G4', 'G8', 'G5', 'G6', 'L4', 'K6', 'K6py', 'NS1', 'D4', 'D5', 'I5', 'B1', 'G9', 'L6', 'CL1', 'VG1'],
      'Registry: validation dominates mutation and nothing fallible follows the first mutation '
      '(G1); no C-API failure result is ignored (G2); the Python mirror is written only after the '
      'engine call, under the lock, with the same key, by exactly two functions (G3); a mutation '
@@ -197,7 +197,7 @@ prop('C17', ['L1', 'L2', 'L3', 'L4', 'L5', 'T3', 'T3b', 'G3', 'L6'],
      'queue on a lock that releases the GIL instead of on the engine mutex (G3).',
      ['linearizability over schedules'])
 
-prop('C18', ['T1', 'T1e', 'T2', 'T3', 'T3b', 'T4', 'T5', 'T6', 'T7', 'T8', 'K7py', 'T9', 'K6py', 'T10'],
+prop('C18', ['T1', 'T1e', 'T2', 'T3', 'T3b', 'T4', 'T5', 'T6', 'T7', 'T8', 'K7py', 'T9', 'K6py', 'T10', 'VG1'],
      'Twins: both recognisers test the same atoms (T1); the key sort twin has the same stages and '
      'last resort (T2); cached answers and address-keyed memos are evicted with the class (T3, '
      'T3b); one-level handlers (T4), '
@@ -206,14 +206,14 @@ prop('C18', ['T1', 'T1e', 'T2', 'T3', 'T3b', 'T4', 'T5', 'T6', 'T7', 'T8', 'K7py
      'lookup order (K6py) agree with the engine.',
      ['agreement over all inputs and cache histories'])
 
-prop('C19', ['DC1', 'DC2', 'DC3', 'DC4', 'DC5', 'G4', 'F8', 'CL1'],
+prop('C19', ['DC1', 'DC2', 'DC3', 'DC4', 'DC5', 'G4', 'F8', 'CL1', 'VG1'],
      'Dataclasses / partial: field partition by the pytree_node flag with one name tuple for '
      'children, entries and unflatten (DC1); keyword routing (DC2); rejections dominate (DC3, G4); '
      'partial flatten/unflatten are inverse, registered globally, nested partials shimmed (DC4); a '
      'class is processed by dataclasses.dataclass exactly once (DC5); eq/hash agreement (F8); the flatten / unflatten closures read no finished loop variable of the function that builds them (CL1).',
      ['all layouts and values', '__post_init__ behaviour'])
 
-prop('C20', ['R1', 'R2', 'R3', 'R4', 'F1', 'F14', 'CL1'],
+prop('C20', ['R1', 'R2', 'R3', 'R4', 'F1', 'F14', 'CL1', 'VG1'],
      'Ravel: each partial binds exactly the leading parameters of its target (R1); shape guard and '
      '(mixed-dtype) dtype guard dominate the split, chunks/shapes/dtypes are joined by the strict '
      'zip (R2); the three backends have the same structure (R3); the numpy common dtype is '
